@@ -85,7 +85,7 @@ func c18Receivers(tier string) []c18Recv {
 		{mtInt, []*mval{vI(0), vI(3), vI(-2)}},
 		{mtFloat, []*mval{vF(1.5), vF(2.0), vF(-0.5)}},
 		{mtBool, []*mval{vB(true), vB(false)}},
-		{mtStr, []*mval{vS(""), vS("a"), vS("a,b,c"), vS("12"), vS("äbc"), vS("é")}},
+		{mtStr, []*mval{vS(""), vS("a"), vS("a,b,c"), vS("12"), vS("äbc"), vS("é"), vS(c18LongNonASCII)}},
 		{mtNull, []*mval{vNull()}},
 		{mtRange, []*mval{vRange(0, 0), vRange(0, 1), vRange(0, 3), vRange(3, 0)}},
 		{mtList(mtInt), []*mval{vL(), vL(vI(1)), vL(vI(3), vI(1), vI(2))}},
@@ -111,6 +111,28 @@ func c18Receivers(tier string) []c18Recv {
 		)
 	}
 	return rs
+}
+
+// c18LongNonASCII: 12 characters, 36 bytes: the two ways of counting differ by more than any
+// small constant
+const c18LongNonASCII = "€€€€€€€€€€€€"
+
+// recvIndexSet: boundary indices of the receiver; for a string both its byte length and its
+// character count are boundaries.
+func recvIndexSet(v *mval) []*mval {
+	out := indexSet(recvLen(v))
+	if v.K == mStr && utf8.RuneCountInString(v.S) != len(v.S) {
+		seen := map[int64]bool{}
+		for _, i := range out {
+			seen[i.I] = true
+		}
+		for _, i := range indexSet(utf8.RuneCountInString(v.S)) {
+			if !seen[i.I] {
+				out = append(out, i)
+			}
+		}
+	}
+	return out
 }
 
 func recvLen(v *mval) int {
@@ -140,7 +162,7 @@ func argSet(recv *mval, member, pname string, pt ast.Type, tier string) []*mval 
 	switch pt.Kind() {
 	case ast.IntTypeKind:
 		if strings.Contains(pname, "index") || pname == "upper" {
-			return indexSet(recvLen(recv))
+			return recvIndexSet(recv)
 		}
 		return []*mval{vI(-1), vI(0), vI(2)}
 	case ast.StringTypeKind:
@@ -218,7 +240,7 @@ func c18Cases(tier string) []c18Case {
 				if rs.T.K == mkList {
 					ret = rs.T.Elem
 				}
-				for _, i := range indexSet(recvLen(recv)) {
+				for _, i := range recvIndexSet(recv) {
 					out = append(out, c18Case{T: rs.T, Recv: recv, Member: "[]", Via: "index", Params: []string{"index"}, Args: []*mval{i}, Ret: ret})
 				}
 			}
@@ -405,7 +427,8 @@ func c18Reference(c c18Case) c18Ref {
 			// a bound beyond the end is out of range
 			n := utf8.RuneCountInString(r.S)
 			if n != len(r.S) {
-				return c18Ref{Status: "unspec"} // bytes or characters: left open for non-ASCII receivers
+				// bytes or characters: left open for non-ASCII receivers, but a result is a prefix
+				return c18Ref{Status: "unspec", Check: "prefix"}
 			}
 			u := a[0].I
 			if u < 0 {
@@ -788,6 +811,9 @@ func c18Judge(c c18Case, ref c18Ref, o c18Obs) (fails [][2]string, outcome strin
 		return
 	}
 	if ref.Status == "unspec" {
+		if ref.Check == "prefix" && o.Res != nil && o.Res.K == mStr && !strings.HasPrefix(c.Recv.S, o.Res.S) {
+			add("MEMBER:semantics:"+c.Member, fmt.Sprintf("result %s is not a prefix of the receiver %s", o.Res, c.Recv))
+		}
 		return fails, "ok-unspecified"
 	}
 	if ref.Res != nil {
@@ -928,6 +954,9 @@ func c18JudgeProgram(c c18Case, ref c18Ref, o Obs) (fails [][2]string, outcome s
 		return
 	}
 	if ref.Status == "unspec" {
+		if ref.Check == "prefix" && !strings.HasPrefix(c.Recv.S, resText) {
+			add("MEMBER:semantics:"+c.Member, fmt.Sprintf("printed result %q is not a prefix of the receiver %s", resText, c.Recv))
+		}
 		return fails, "ok-unspecified"
 	}
 	if ref.Res != nil && c.Ret.K != tNull && c.Ret.K != tAny {
